@@ -118,7 +118,7 @@ def gen_big(seed, idx):
     """Holder / waiter populations that cross the representation switches (6/128 holder slots,
     8/128 waiter slots, priority ring) and releases in random order."""
     rng = random.Random(seed * 7919 + idx)
-    kind = idx % 4
+    kind = idx % 6
     steps = []
     if kind == 0:      # many holders on a semaphore key, random-order unlock, re-lock some
         n = rng.choice([10, 140, 200])
@@ -157,6 +157,42 @@ def gen_big(seed, idx):
             steps.append({"op": "unlock", "conn": 1, "key": 1, "lid": 999999, "flag": 1})
             if rng.random() < 0.15:
                 steps.append({"op": "tick", "n": 1})
+    elif kind == 4:    # waiters parked in the long-wait table (> 8 re-checks), holes punched by grants / cancels before the deadline
+        n = rng.choice([3, 5, 9])
+        T = rng.choice([52, 60, 75])     # the hand-over to the long table happens at the 9th re-check, ~ +44 s
+        c = rng.choice([0, 1])
+        steps.append({"op": "lock", "conn": 1, "key": 1, "lid": 1, "to": 0, "ex": 300, "cnt": c})
+        if c:
+            steps.append({"op": "lock", "conn": 1, "key": 1, "lid": 2, "to": 0, "ex": 300, "cnt": c})
+        for i in range(n):
+            steps.append({"op": "lock", "conn": 2 + i % 3, "key": 1, "lid": 10 + i, "to": T if rng.random() < 0.8 else T + 1, "ex": 300, "cnt": c, "nodup": True})
+            if rng.random() < 0.2:
+                steps.append({"op": "tick", "n": 1})
+        steps.append({"op": "tick", "n": rng.choice([45, 47, 49])})
+        for i in range(n):
+            r = rng.random()
+            if r < 0.3:
+                steps.append({"op": "unlock", "conn": 1, "key": 1, "lid": 10 + i, "flag": 2})     # cancel this waiter
+            elif r < 0.5:
+                steps.append({"op": "unlock", "conn": 1, "key": 1, "lid": 999999, "flag": 1})      # release the oldest holder: head waiter is granted
+        steps.append({"op": "tick", "n": 35})
+    elif kind == 5:    # holds parked in the long expiry table, then unlocked / re-locked / updated before the deadline
+        n = rng.choice([3, 6, 10])
+        E = rng.choice([52, 60, 75])
+        for i in range(n):
+            steps.append({"op": "lock", "conn": 1 + i % 3, "key": 1, "lid": 10 + i, "to": 0, "ex": E if rng.random() < 0.8 else E + 1, "cnt": 50, "rc": 2})
+            if rng.random() < 0.2:
+                steps.append({"op": "tick", "n": 1})
+        steps.append({"op": "tick", "n": rng.choice([45, 47, 49])})
+        for i in range(n):
+            r = rng.random()
+            if r < 0.25:
+                steps.append({"op": "unlock", "conn": 1, "key": 1, "lid": 10 + i})
+            elif r < 0.45:
+                steps.append({"op": "lock", "conn": 1, "key": 1, "lid": 10 + i, "to": 0, "ex": rng.choice([5, 30, 80]), "cnt": 50, "rc": 2})          # re-lock restarts the period
+            elif r < 0.65:
+                steps.append({"op": "lock", "conn": 1, "key": 1, "lid": 10 + i, "flag": 2, "to": 0, "ex": rng.choice([5, 30, 80]), "cnt": 50, "rc": 2})  # update
+        steps.append({"op": "tick", "n": 100})
     else:              # semaphore with waiters of mixed Count: wake passes that admit several at once
         c = rng.choice([2, 3, 5])
         for l in range(1, c + 2):
